@@ -100,7 +100,18 @@ impl AssetExpr {
 #[derive(Serialize, Deserialize, Debug, Clone, PartialEq, Eq)]
 pub struct AdHocDirective {
     pub name: String,
+    #[serde(serialize_with = "serialize_in_key_order")]
     pub data: HashMap<String, Expression>,
+}
+
+/// A hash map iterates in a different order in every process (and for every instance), which
+/// would make the encoded IR of the same program differ from build to build.
+fn serialize_in_key_order<S>(data: &HashMap<String, Expression>, serializer: S) -> Result<S::Ok, S::Error>
+where
+    S: serde::Serializer,
+{
+    let ordered: std::collections::BTreeMap<&String, &Expression> = data.iter().collect();
+    ordered.serialize(serializer)
 }
 
 #[derive(Serialize, Deserialize, Debug, Clone, PartialEq, Eq)]
